@@ -678,7 +678,7 @@ pub fn run(ctx: &Ctx) -> Result<Evidence, String> {
         acc.count("quote_wrapped_operand_names_cases", n);
         acc.evaluations += n;
     }
-    let mut ev = Evidence::new("cases = (lhs value, rhs value, operator, operand form pair): all ordered pairs of a value universe (Nothing + every JSON type incl. int/float twins, -0.0, 1e-17, 2^53-1, empty/nested containers, unicode strings) x 6 operators x operand forms (@.m, $.m, nested singular path, array element by index, literal in several number spellings, value(@.m)). Truth observed at the boundary as 'carrier element kept' for L op R and for !(L op R). A second exhaustive family: all ordered pairs of ~90 strings (length classes 1..65, long common prefixes, multi-byte characters at 8/16/32-byte boundaries, NUL, UTF-16 vs scalar order, look-alikes) x 6 operators x 3 form pairs, with the trichotomy law on the observed outcomes. The universe includes float-lattice neighbours, containers differing in a float's last bit, and integers above i64::MAX (open finding KF-C04-integers-beyond-i64, exact effect model). Non-trivial = distinct (type(lhs), type(rhs), op, form pair) cells.");
+    let mut ev = Evidence::new("cases = (lhs value, rhs value, operator, operand form pair): all ordered pairs of a value universe (Nothing + every JSON type incl. int/float twins, -0.0, 1e-17, 2^53-1, empty/nested containers, unicode strings) x 6 operators x operand forms (@.m, $.m, nested singular path, array element by index, literal in several number spellings, value(@.m)). Truth observed at the boundary as 'carrier element kept' for L op R and for !(L op R). A second exhaustive family: all ordered pairs of ~90 strings (length classes 1..65, long common prefixes, multi-byte characters at 8/16/32-byte boundaries, NUL, UTF-16 vs scalar order, look-alikes) x 6 operators x 3 form pairs, with the trichotomy law on the observed outcomes. The universe includes float-lattice neighbours, containers differing in a float's last bit, and integers above i64::MAX (open finding KF-C04-integers-beyond-i64, exact effect model). Also: random number pairs; number literals written with 1..40 fraction digits / 15..40 significant digits against the correctly rounded double and its neighbours; quote-wrapped member names as operands in either quoting style; objects of up to 300 members. Non-trivial = distinct (type(lhs), type(rhs), op, form pair) cells.");
     ev.set("exhaustive", json!(true));
     ev.set("universe_size", json!(n));
     ev.set("form_pairs", json!(nfp));
